@@ -1,12 +1,12 @@
 #!/usr/bin/env python3
-"""seed_file.py <prop> <m> <name> <detected_by> <needs> [--patch <rebased patch>] [--st <seed_test output>]
+"""seed_file.py <prop> <m> <name> <detected_by> <needs> [--patch <rebased patch>] [--st <seed_test output>] [--src <agent dir>] [--res <seedcheck result>]
 File a self-confirmed seeded change (agent deliverable in /tmp/seed_out/<prop>/<m>, seedcheck result in /tmp/seedcheck_<prop>_<m>.res)."""
 import json, shutil, sys, time
 from pathlib import Path
 args = sys.argv[1:]
 prop, m, name, det, needs = args[:5]
 opt = dict(zip(args[5::2], args[6::2]))
-src = Path(f"/tmp/seed_out/{prop}/{m}")
+src = Path(opt["--src"]) if "--src" in opt else Path(f"/tmp/seed_out/{prop}/{m}")
 dst = Path("/verif/seeded") / prop / name
 dst.mkdir(parents=True, exist_ok=True)
 for f in ("demo.cpp", "notes.md"):
@@ -17,7 +17,7 @@ if "--patch" in opt:
     shutil.copy2(src / "patch.diff", dst / "patch.original.diff")
 else:
     shutil.copy2(src / "patch.diff", dst / "patch.diff")
-res = Path(f"/tmp/seedcheck_{prop}_{m}.res")
+res = Path(opt["--res"]) if "--res" in opt else Path(f"/tmp/seedcheck_{prop}_{m}.res")
 st = Path(opt.get("--st", f"/tmp/st_{prop}_{m}.out"))
 meta = {"property": prop, "name": name, "needs_to_manifest": needs,
         "confirmed": {"how": "/tmp/seedcheck.sh: git apply in a scratch worktree, demo built against the patched tree fails; reverted, rebuilt, "
